@@ -158,6 +158,7 @@ class History:
         members: dict[int, list[int]] = {}        # gid -> children ever spawned
         child_group: dict[int, int] = {}
         via_start: dict[int, int] = {}            # child -> starter
+        self._via_start = via_start
         start_child: dict[int, int] = {}          # starter -> child of its pending start()
         started_val: dict[int, int] = {}
         finished_with: dict[int, tuple] = {}      # child -> ("ret", v) | ("exc", held)
@@ -180,6 +181,7 @@ class History:
         self._late_started = set()
         self._native_in_gexit = set()
         self._native_before_start = set()
+        self._to_group_errors = {}
         self._req_vis = {}
         self._native_events = []          # (step, task): native Task.cancel() requests
         self._native_raised = []          # (step, task): a native CancelledError surfaced in the task
@@ -249,6 +251,11 @@ class History:
                     child_group[ch] = b
                     via_start[ch] = t
                     start_child[t] = ch
+                if c == S.STARTED and res[0] == "exc" and list(res[2]) == [3000] and t in via_start \
+                        and (t not in started_val or t in self._late_started):
+                    self.v("C07", f"step {i}: started() of child {t} raised RuntimeError although no earlier started() call of this "
+                                  f"child had reached a waiting start() (the caller was cancelled before the first call): a repeated "
+                                  f"started() is an error only if the caller has NOT been cancelled in the meantime")
                 if c == S.STARTED and res[0] == "ret" and t in via_start and t not in started_val:
                     started_val[t] = b
                     st_ = via_start[t]
@@ -335,6 +342,15 @@ class History:
                         gs = group_scope.get(g_)
                         if gs and snap["scopes"][gs]["cancelled"] and not prev["scopes"][gs]["cancelled"]:
                             self.v("C07", f"step {i}: group {g_} was cancelled because child {t} ended before calling started()")
+                gs0 = group_scope.get(g_) if g_ is not None else None
+                if gs0 and not errs and not to_starter and g_ not in tainted_groups and t not in self._dirty_finish \
+                        and gs0 in prev["scopes"] and not prev["scopes"][gs0]["cancelled"] and snap["scopes"][gs0]["cancelled"] \
+                        and ref_eff_cancelled(prev, gs0):
+                    # the child merely ended cancelled while an enclosing scope's cancellation was visible to the group:
+                    # nobody cancelled the group's OWN scope, nothing failed
+                    self.v("C04", f"step {i}: the scope {gs0} of group {g_} became cancelled when child {t} ended with a "
+                                  f"cancellation, although the cancellation came from the enclosing scope {ref_eff_cancelled(prev, gs0)} "
+                                  f"and nothing failed: cancel_called / cancelled_caught of a scope nobody cancelled")
                 if g_ is not None and errs and not to_starter and g_ in left_at and g_ not in tainted_groups:
                     self.v("C02", f"step {i}: child {t} of group {g_} raised {errs} after the group's block had already finished at step {left_at[g_]}: the error can no longer surface")
                 if g_ is not None and errs and not to_starter:
@@ -347,6 +363,8 @@ class History:
                             self.v("C02", f"step {i}: child {t} of group {g_} failed with {errs} but the group's scope {gs} is not (effectively) cancelled afterwards: the remaining tasks are not cancelled")
                     if t in via_start:
                         self._start_errors.setdefault(g_, []).extend(errs)
+                        if t not in started_val:
+                            self._to_group_errors[t] = list(errs)      # pre-started() failure that went to the group
                     if t in via_start and t not in started_val:
                         self.flags.add("unstarted_child_error_to_group")
 
@@ -371,6 +389,7 @@ class History:
                     got_sh = bool(snap["scopes"][r[1]]["shield"])
                     if got_sh != bool(d0):
                         self.v("C04", f"step {i}: scope {r[1]} was created with shield={bool(d0)} through the public constructor but reports shield={got_sh}: code inside it is {'not ' if d0 else ''}protected from outer cancellation")
+                        self.v("C06", f"step {i}: scope {r[1]} was created with shield={bool(d0)} through a timeout helper but reports shield={got_sh}: its block is {'not ' if d0 else ''}cut off from the deadlines (and cancellation) of the enclosing scopes")
                     want_dl = -1 if b0 < 0 else b0
                     if snap["scopes"][r[1]]["deadline"] != want_dl:
                         self.v("C06", f"step {i}: scope {r[1]} was created with deadline {want_dl} but reports {snap['scopes'][r[1]]['deadline']}")
@@ -383,6 +402,7 @@ class History:
                     lv = list(r[2]) if r[0] == "exc" else []
                     if 1000 not in lv and not any(x >= 2000 for x in lv):
                         self.v("C04", f"step {i}: a native cancellation interrupted task {t} inside the __aexit__ of group {b0} (no error was pending), but it did not come out of the block: result {r}")
+                        self.v("C05", f"step {i}: a native cancellation request reached task {t} while it waited inside the __aexit__ of group {b0}; the block ended with {r} and the request was dropped (a native asyncio.timeout / Task.cancel() around the group is lost)")
                 if c0 == S.GEXIT:
                     self.on_group_left(b0, r, snap, i, members, expected, finished_with)
                     if not snap["scopes"][group_scope.get(b0, 0)]["active"] if group_scope.get(b0) else True:
@@ -518,6 +538,11 @@ class History:
                     self.v("C07", f"step {i}: child {ch} ended before started() with {want}; that outcome was handed to the waiting start(), but start() raised {sorted(res[2])}")
             if ch in started_val and ch not in self._late_started and cancels and 1000 not in cancels:
                 self.v("C07", f"step {i}: child {ch} had called started({started_val[ch]}) while start() was still waiting, yet start() raised the cancellation {cancels} instead of returning the value")
+            if ch in self._to_group_errors and not cancels:
+                owned = self._to_group_errors[ch]
+                if any(x in owned for x in res[2]):
+                    self.v("C02", f"step {i}: start() raised {sorted(res[2])} to task {t} although the error of child {ch} had already been handed to the group (the start future was cancelled when the child ended): the error surfaces twice")
+                    self.v("C07", f"step {i}: start() raised the error {sorted(res[2])} of child {ch}, which the group already owns, instead of the caller's own cancellation")
             if ch in started_val:
                 self.flags.add("start_raised_after_started")
             if ch in finished_with and ch not in started_val and not cancels and ch not in self._dirty_finish:
@@ -652,6 +677,8 @@ class History:
                             self.v("C03", f"step {i}: scope {c} is cancelled and task {t} (state {tk['state']}) is inside it with no shield in between, but no delivery callback is scheduled")
                             if c in self._failed_group_scopes:
                                 self.v("C02", f"step {i}: a child of the group with scope {c} failed, but task {t} inside that scope is not being cancelled (no delivery scheduled)")
+                            if t in self._via_start:
+                                self.v("C07", f"step {i}: task {t} was started with start() into a group whose scope chain shows the cancelled scope {c}, but nothing is cancelling it: it is not treated as an ordinary member of the group")
                     break
                 if sc["shield"]:
                     break
@@ -922,6 +949,10 @@ def scheck(pid: str, tier: str, extra_assumptions=None, known=None) -> int:
             if pid == "C04" or "host_leaves" in name or "cancelling()" in msg:
                 eager_hits.append((name, msg))
         real_flags["eager_directed_scenarios"] = len(eager_directed.SCENARIOS)
+    if pid == "C03":
+        import thread_directed               # tasks entering a scope from a worker thread (outside the model)
+        eager_hits += thread_directed.run_all()
+        real_flags["thread_boundary_scenarios"] = len(thread_directed.SCENARIOS)
     if pid == "C01":
         import deep_directed                 # nesting deeper than the recursion limit (outside the model)
         eager_hits += deep_directed.run_all()
@@ -949,9 +980,9 @@ def scheck(pid: str, tier: str, extra_assumptions=None, known=None) -> int:
         rep.violation(f"[{cfg} loop] " + msg, {"kind": "monitor-real-loop", "config": cfg, "ops": rw.ops,
                                                "ops_readable": sgen.readable(rw.ops)[:200]})
     for name, msg in eager_hits[:2]:
-        kind = "directed-deep" if "depth=" in name else "directed-eager"
+        kind = "directed-deep" if "depth=" in name else ("directed-thread" if name.startswith("thread/") else "directed-eager")
         rep.violation(f"[directed scenario {name}] {msg}", {"kind": kind, "scenario": name,
-                                                              "replay": f"harness/{'deep' if kind == 'directed-deep' else 'eager'}_directed.py runs the scenario"})
+                                                              "replay": f"harness/{kind.split('-')[1]}_directed.py runs the scenario"})
     tie = []
     if not proofs_ok:
         tie.append("proof obligation: " + str(rep.coverage.get("proof_failure", {}).get("where")))
@@ -1001,6 +1032,12 @@ def scheck(pid: str, tier: str, extra_assumptions=None, known=None) -> int:
 def sreplay(pid: str, path: str) -> int:
     """Re-executes a stored case: implementation trace, monitors, and comparison with the model."""
     data = json.loads(open(path).read())
+    if data.get("kind") == "directed-thread":
+        import thread_directed
+        r = [(n, m) for n, m in thread_directed.run_all() if n == data.get("scenario")]
+        for n, m in r:
+            print(f"MONITOR {pid}: [{n}] {m}")
+        return 1 if r else 0
     if data.get("kind") == "directed-deep":
         import deep_directed
         r = deep_directed.run_all()
